@@ -607,7 +607,7 @@ func run(c *mc.Ctx) {
 		}
 		// the expanded key has now been used for every S and flag set of the group: it must still behave like a fresh
 		// object holding the same key, and like a copy of itself taken by value
-		if epk != nil && len(ss) > 0 {
+		if epk != nil && len(ss) > 0 && g.s.Bit(0) == 0 { // (every second group)
 			sig := append(append([]byte{}, g.r.enc...), ss[0]...)
 			f := p.WithS(ss[0])
 			fresh, _ := ed.NewExpandedPublicKey(g.a.enc)
